@@ -192,6 +192,44 @@ def ex_parsers(repo):
     return out
 
 
+PANIC_PATTERNS = [
+    ("unwrap", r"\.unwrap\(\)"), ("expect", r"\.expect\("), ("slice", r"\w\[[^\]]*\.\.[^\]]*\]"),
+    ("index", r"[\w\)]\[[^\]\.]+\]"), ("split_at", r"split_at\("), ("macro", r"unreachable!|panic!|todo!|unimplemented!|assert!|assert_eq!"),
+    ("sub", r"\b[\w\.\(\)]+\s-\s[\w\.\(\)]+"),
+]
+
+
+def ex_panic_sites(repo):
+    """inventory of potential panic sites in non-test code: (file, fn, kinds, normalised source line)"""
+    import glob
+    sites = []
+    for fn in sorted(glob.glob(os.path.join(repo, "src/**/*.rs"), recursive=True)):
+        rel = os.path.relpath(fn, repo)
+        if rel in ("src/verif.rs",):
+            continue
+        src = non_test(open(fn).read())
+        cur = ""
+        for l in src.split("\n"):
+            mm = re.search(r"\bfn\s+(\w+)", l)
+            if mm:
+                cur = mm.group(1)
+            st = l.strip()
+            if st.startswith("//") or "vlsp_verif" in l or "crate::verif::" in l:
+                continue
+            code = re.sub(r'"(?:[^"\\]|\\.)*"', '""', st)       # string literals do not count
+            kinds = []
+            for k, pat in PANIC_PATTERNS:
+                if re.search(pat, code):
+                    if k == "index" and re.search(r"#\[|vec!\[|\[\s*\]|: \[|&\[|\.\.", code):
+                        continue
+                    if k == "sub" and ("i64" in code or "->" in code and " - " not in code):
+                        continue
+                    kinds.append(k)
+            if kinds:
+                sites.append([rel, cur, "+".join(kinds), re.sub(r"\s+", " ", st)])
+    return {"panicSites": sites}
+
+
 def camel(s):
     parts = s.split("_")
     return parts[0] + "".join(x.capitalize() for x in parts[1:])
@@ -232,7 +270,7 @@ def ex_config_schema(repo):
             "configDefaultEnabled": d_en == "true", "configNullIsDefault": null_default}
 
 
-EXTRACTORS = [ex_detect, ex_config, ex_checker, ex_cache, ex_parsers, ex_config_schema]
+EXTRACTORS = [ex_detect, ex_config, ex_checker, ex_cache, ex_parsers, ex_config_schema, ex_panic_sites]
 
 
 def render(vals):
@@ -284,6 +322,15 @@ def main(repo, out_path, update_fallback=False):
     old = open(out_path).read() if os.path.exists(out_path) else ""
     if old != text:
         open(out_path, "w").write(text)
+    # the panic-site inventory lives in its own module (only C06 depends on it)
+    stext = ("/- REGENERATED by tools/extract.py from /repo sources on every run. Do not edit. -/\nnamespace Vlsp.Generated\n\n"
+             "/-- (file, function, kind, source line) of every potential panic site in non-test code -/\n"
+             "def panicSites : List (String × String × String × String) := [\n"
+             + ",\n".join("  (" + ", ".join(lean_str(x) for x in site) + ")" for site in vals["panicSites"]) + "]\n\nend Vlsp.Generated\n")
+    spath = os.path.join(os.path.dirname(out_path), "GeneratedSites.lean")
+    sold = open(spath).read() if os.path.exists(spath) else ""
+    if sold != stext:
+        open(spath, "w").write(stext)
     changed = sorted(k for k in vals if fb.get(k) != vals[k])
     if update_fallback:
         json.dump(vals, open(FALLBACK, "w"), indent=1, sort_keys=True, ensure_ascii=False)
